@@ -44,7 +44,7 @@ type Stats struct {
 	FieldHooks     int // accesses to plain fields of structs that carry a sync object
 	AtomicImports  int
 	Uninstrumented []string // constructs the rewriter saw but could not hook
-	Channels       []string // channel operations in instrumented packages (not modelled)
+	Channels       []string // channel operations, sync.Cond and sync.Map uses in instrumented packages (not modelled)
 	ResetPackages  []string
 }
 
@@ -683,6 +683,9 @@ func Generate(repoDir, outDir, shimDir string) (overlayPath string, st Stats, er
 					if sel, ok := m.(*ast.SelectorExpr); ok && sel.Sel.Name == n {
 						if id, ok := sel.X.(*ast.Ident); ok && id.Name == "sync" {
 							st.Uninstrumented = append(st.Uninstrumented, fmt.Sprintf("%s: sync.%s is not modelled", p.Fset.Position(sel.Pos()), n))
+							// a real Cond.Wait parks the goroutine behind the scheduler's back,
+							// a real Map hides its synchronisation: same treatment as channels
+							st.Channels = append(st.Channels, fmt.Sprintf("%s (sync.%s)", p.Fset.Position(sel.Pos()), n))
 						}
 					}
 					return true
